@@ -6,6 +6,7 @@ require (
 	github.com/anishathalye/porcupine v1.3.0
 	github.com/bufbuild/buf v0.0.0
 	github.com/google/uuid v1.6.0
+	github.com/klauspost/compress v1.18.0
 	google.golang.org/protobuf v1.36.6
 )
 
@@ -13,7 +14,6 @@ require (
 	github.com/bufbuild/protocompile v0.14.1 // indirect
 	github.com/bufbuild/protoplugin v0.0.0-20250218205857-750e09ce93e1 // indirect
 	github.com/gofrs/flock v0.12.1 // indirect
-	github.com/klauspost/compress v1.18.0 // indirect
 	golang.org/x/crypto v0.37.0 // indirect
 	golang.org/x/mod v0.24.0 // indirect
 	golang.org/x/sys v0.32.0 // indirect
